@@ -64,6 +64,7 @@ type c18Caller struct {
 }
 
 type c18Case struct {
+	Swallow   bool // the backend has a ReplyPublishErrorHandler that swallows a failed reply publish: the command is then settled as if the reply had gone out
 	Class     string
 	AckErrors bool
 	Timeout   time.Duration // ListenForReplyTimeout (0: none)
@@ -111,6 +112,10 @@ func runC18(c *Ctx) error {
 		for _, fail := range []int{0, 1} {
 			cases = append(cases, c18Case{Class: "reply-publish-fails", AckErrors: ack, Callers: []c18Caller{{"c1", "drain", fail, true}, {"c2", "readone", 0, false}}})
 		}
+		if !ack {
+			// ... unless a ReplyPublishErrorHandler swallows the publish error: then the handler's own outcome decides (here: an error, so Nack and redelivery)
+			cases = append(cases, c18Case{Class: "reply-publish-error-swallowed", AckErrors: false, Swallow: true, Callers: []c18Caller{{"c1", "drain", 1, true}, {"c2", "readone", 0, false}}})
+		}
 		for _, n := range []int{2, 8, 32} {
 			cs := c18Case{Class: fmt.Sprintf("concurrent/%d", n), AckErrors: ack}
 			for i := 0; i < n; i++ {
@@ -139,7 +144,7 @@ func runC18(c *Ctx) error {
 	}
 	runs := make([]*tr.Run, len(cases))
 	for i, cs := range cases {
-		runs[i] = T.NewRun(cs.Class, map[string]any{"ackerrors": cs.AckErrors})
+		runs[i] = T.NewRun(cs.Class, map[string]any{"ackerrors": cs.AckErrors, "swallow": cs.Swallow})
 		runs[i].Key = fmt.Sprintf("%+v", cs)
 	}
 	sched.SetYield(100)
@@ -252,6 +257,9 @@ func c18Body(r *tr.Run, cs c18Case) {
 			}
 			mu.Unlock()
 		},
+	}
+	if cs.Swallow {
+		cfg.ReplyPublishErrorHandler = func(string, *message.Message, error) error { return nil }
 	}
 	backend, err := requestreply.NewPubSubBackend[c18Res](cfg, requestreply.BackendPubsubJSONMarshaler[c18Res]{})
 	if err != nil {
@@ -438,6 +446,12 @@ func atoiSafe(s string) int {
 func c18Caller1(r *tr.Run, cs c18Case, cl c18Caller, bus *cqrs.CommandBus, backend requestreply.Backend[c18Res], finished chan struct{}) {
 	ctx, cancelCtx := context.WithCancel(context.Background())
 	defer cancelCtx()
+	if cs.Timeout > 0 && (strings.HasSuffix(cl.Name, "1") || strings.HasSuffix(cl.Name, "3")) {
+		// the caller's own context has a deadline too, a much later one: ListenForReplyTimeout still ends the listener
+		var c2 context.CancelFunc
+		ctx, c2 = context.WithTimeout(ctx, time.Hour)
+		defer c2()
+	}
 	cmd := &c18Cmd{Caller: cl.Name, FailN: cl.FailN, Empty: strings.HasSuffix(cl.Name, "e")}
 	if strings.HasSuffix(cl.Name, "x") {
 		cmd.Wraps = "canceled"
